@@ -407,10 +407,10 @@ func (z *zwriter) generate() {
 	}
 	// the iterator spelling used on the left and on the right
 	type piece struct {
-		text             string
-		offset           int64
-		width            int
-		base             string
+		text   string
+		offset int64
+		width  int
+		base   string
 	}
 	mk := func() piece {
 		switch z.rnd(4) {
@@ -615,9 +615,9 @@ func (z *zwriter) include(zone model.Name) {
 }
 
 type c06Config struct {
-	origin     string
-	defTTL     *uint32
-	includes   bool
+	origin   string
+	defTTL   *uint32
+	includes bool
 }
 
 func c06Zone(w *core.W, j int) {
